@@ -35,7 +35,7 @@ var All = []string{
 	"create-eligible", "create-once", "dup-resolution", "ineligible-cleanup", "unknown-untouched",
 	"budget", "canary-confinement", "canary-list-growth", "canary-label", "promotion-rule",
 	"paused-frozen", "rate", "ownership", "rs-identity", "rs-gc", "status-function", "rs-status-order",
-	"canary-nodes-valid", "no-panic", "canary-verdict",
+	"canary-nodes-valid", "no-panic", "canary-verdict", "condition-clock",
 }
 
 // Of builds a Set.
@@ -270,6 +270,9 @@ func Check(r *sim.Record, on Set, h *History) []V {
 		}
 		if on["canary-verdict"] {
 			add(canaryVerdict(r, v)...)
+		}
+		if on["condition-clock"] {
+			add(conditionClock(r, v)...)
 		}
 	}
 	if r.Actor == sim.ActorEDS {
@@ -654,6 +657,34 @@ func rate(r *sim.Record, v *ersView, h *History) []V {
 			}
 		}
 		h.lastWriteSync[key] = writeSync{at: r.Pre.Now, statusOK: v.statusOK, step: r.Step}
+	}
+	return out
+}
+
+// conditionClock: the Active and Canary conditions are clocks ("the time since its Active condition last became
+// true", "the canary has lasted longer than ..."): a sync that flips one of them must stamp the flip with its own time.
+func conditionClock(r *sim.Record, v *ersView) []V {
+	post := r.Post.RSByKey(v.rs.Namespace, v.rs.Name)
+	if post == nil || !v.statusOK || r.Panic != nil {
+		return nil
+	}
+	var out []V
+	for _, t := range []edsv1.ExtendedDaemonSetReplicaSetConditionType{edsv1.ConditionTypeActive, edsv1.ConditionTypeCanary} {
+		pc, qc := oracle.RSCond(&v.rs.Status, t), oracle.RSCond(&post.Status, t)
+		if qc == nil {
+			continue
+		}
+		flipped := (pc == nil && qc.Status == corev1.ConditionTrue) || (pc != nil && pc.Status != qc.Status)
+		if !flipped {
+			continue
+		}
+		if d := r.Pre.Now.Sub(qc.LastTransitionTime.Time); d > 2*time.Second || d < -2*time.Second {
+			prop := "C09"
+			if t == edsv1.ConditionTypeCanary {
+				prop = "C06"
+			}
+			out = append(out, V{prop, "condition-clock", prop + "/condition-clock/" + string(t) + "-transition-time-not-refreshed", fmt.Sprintf("the sync of %s at %s changed condition %s to %s but its lastTransitionTime is %s", v.rs.Name, r.Pre.Now.Format("15:04:05"), t, qc.Status, qc.LastTransitionTime.Format("15:04:05"))})
+		}
 	}
 	return out
 }
